@@ -201,9 +201,12 @@ def run(ctx):
         ro = g.calls_to(WK + "::run_one")
         qn = g.calls_to(WK + "::quit_now")
         if ro and qn:
-            s = seed_after_call(g, ro[0], V("Quit", None), stop_blocks={h for _, h in C.back_edges(g)})
-            s2 = seed_after_call(g, ro[0], V("Continue", None), stop_blocks={h for _, h in C.back_edges(g)})
-            s3 = seed_after_call(g, ro[0], V("Skip", None), stop_blocks={h for _, h in C.back_edges(g)})
+            # (WalkState's own predicates — is_quit(), is_continue() — are evaluated on the seeded answer)
+            from ..flow import combinator_model as _cm
+            cm_ = _cm(facts, None, callees=lambda p_: p_.startswith(W + "::WalkState::"))
+            s = seed_after_call(g, ro[0], V("Quit", None), call_model=cm_, stop_blocks={h for _, h in C.back_edges(g)})
+            s2 = seed_after_call(g, ro[0], V("Continue", None), call_model=cm_, stop_blocks={h for _, h in C.back_edges(g)})
+            s3 = seed_after_call(g, ro[0], V("Skip", None), call_model=cm_, stop_blocks={h for _, h in C.back_edges(g)})
             if qn[0].bb in s.exec_blocks and qn[0].bb not in s2.exec_blocks and qn[0].bb not in s3.exec_blocks:
                 r.ok("run|quit", "WalkState::Quit ⇒ quit_now(); Continue/Skip ⇒ not", fn=g)
             else:
